@@ -117,7 +117,13 @@ const coreModels = `models:
 func projects() []*Project {
 	var ps []*Project
 	for _, r := range rows {
-		ps = append(ps, &Project{Name: "core_" + r.name, Probe: "core", Univ: true, Config: yamlFor("core_"+r.name, r, coreModels+"  Boom: {model: verif/work/farm/cur/core_"+r.name+".Boom}\n")})
+		cfg := yamlFor("core_"+r.name, r, coreModels+"  Boom: {model: verif/work/farm/cur/core_"+r.name+".Boom}\n")
+		if r.name == "c2" || r.name == "c3" {
+			// one source outside the package directory: gqlgen cannot go:embed it and compiles its
+			// text into the generated code instead
+			cfg = strings.Replace(cfg, "schema:\n  - \"*.graphql\"\n", "schema:\n  - \"*.graphql\"\n  - \"../_shared/extra.graphql\"\n", 1)
+		}
+		ps = append(ps, &Project{Name: "core_" + r.name, Probe: "core", Univ: true, Config: cfg})
 	}
 	// seeded random schemas, each under a different generator configuration
 	for k := 1; k <= 8; k++ {
@@ -265,6 +271,10 @@ func main() {
 
 	// 2. generate every project (child process each: a generator panic is an observation)
 	ps := projects()
+	os.MkdirAll(filepath.Join(cur, "_shared"), 0o755)
+	if b, err := os.ReadFile(filepath.Join(verifRoot, "probes", "_shared", "extra.graphql")); err == nil {
+		os.WriteFile(filepath.Join(cur, "_shared", "extra.graphql"), b, 0o644)
+	}
 	var wg sync.WaitGroup
 	sem := make(chan struct{}, 8)
 	for _, p := range ps {
